@@ -520,9 +520,17 @@ func Main(id, tier string, seed int64, verifDir string) int {
 	}
 	sort.Strings(kf)
 	cov["known_findings_seen"] = kf
+	assume := ch.Assume
+	if assume == nil {
+		assume = []string{}
+	}
+	if kf == nil {
+		kf = []string{}
+	}
+	cov["known_findings_seen"] = kf
 	evd := map[string]interface{}{
 		"property_id": id, "tier": tier, "seed": seed, "level": ch.Level, "coverage": cov,
-		"assumptions": ch.Assume, "wall_s": wall, "violations": len(report),
+		"assumptions": assume, "wall_s": wall, "violations": len(report),
 	}
 	os.MkdirAll(filepath.Join(verifDir, "evidence"), 0o755)
 	b, _ := json.MarshalIndent(evd, "", " ")
